@@ -265,13 +265,16 @@ func strSlice(v ssa.Value) ([]string, bool) {
 	if c, ok := v.(*ssa.Const); ok && c.IsNil() {
 		return nil, true
 	}
-	sl, ok := v.(*ssa.Slice)
+	al, ok := v.(*ssa.Alloc) // a local array variable, indexed in place
 	if !ok {
-		return nil, false
-	}
-	al, ok := sl.X.(*ssa.Alloc)
-	if !ok {
-		return nil, false
+		sl, ok := v.(*ssa.Slice)
+		if !ok {
+			return nil, false
+		}
+		al, ok = sl.X.(*ssa.Alloc)
+		if !ok {
+			return nil, false
+		}
 	}
 	if at, isArr := al.Type().Underlying().(*types.Pointer).Elem().Underlying().(*types.Array); !isArr {
 		return nil, false
@@ -290,7 +293,13 @@ func strSlice(v ssa.Value) ([]string, bool) {
 		}
 		idx, ok := ia.Index.(*ssa.Const)
 		if !ok {
-			return nil, false
+			// a[i] with a variable index: fine as long as it is only read
+			for _, r2 := range *ia.Referrers() {
+				if u, isLoad := r2.(*ssa.UnOp); !isLoad || u.Op != token.MUL {
+					return nil, false
+				}
+			}
+			continue
 		}
 		for _, r2 := range *ia.Referrers() {
 			if st, ok := r2.(*ssa.Store); ok {
